@@ -41,7 +41,13 @@ def model_specs(
     cse=None,
     innovation=("none", "k"),
     allow_positive=True,
+    allow_abs2=None,
+    # inverse-composition nodes (atan(tan u), sqrt(u**2) ...) at the OUTERMOST level of state updates only: nested under
+    # other functions (via the pool) or differentiated in sensors they make sympy's simplify take 10 s+
+    allow_wrap=False,
 ):
+    if allow_abs2 is None:
+        allow_abs2 = allow_positive
     ns = draw(st.integers(*n_state))
     nc = draw(st.integers(*n_control))
     nk = draw(st.integers(*n_calib))
@@ -58,13 +64,15 @@ def model_specs(
     positive = [n for n in namelist if draw(st.integers(0, 3)) == 0] if allow_positive else []
     syms = state + control + calib + [dtname]
 
+    if allow_wrap:  # one model in four carries inverse-composition nodes (sympy's simplify is slow on them)
+        allow_wrap = allow_wrap if draw(st.integers(0, 3)) == 0 else False
     use_pool = draw(st.booleans()) if pool is None else pool
     pooltrees = []
     if use_pool:
         npool = draw(st.integers(2, 3))
         for j in range(npool):
             # later pool entries may contain earlier ones -> nested temporaries
-            pt = draw(T.exprs(syms, positive, depth=2, pool=pooltrees[:]).filter(lambda t: T.size(t) >= 3))
+            pt = draw(T.exprs(syms, positive, depth=2, pool=pooltrees[:], allow_abs2=allow_abs2, allow_wrap=False).filter(lambda t: T.size(t) >= 3))
             pooltrees.append(pt)
 
     trees = {}
@@ -73,7 +81,7 @@ def model_specs(
             # x' = a*x_j + dt*E : keeps histories bounded
             j = draw(st.sampled_from(state))
             a = draw(st.sampled_from([0, 0, 5, 1]))  # CONSTS idx: 1, 1, 0.5, 2 -> see T.CONSTS
-            e = draw(T.exprs(syms[:-1], positive, depth=max(1, depth - 1), pool=pooltrees))
+            e = draw(T.exprs(syms[:-1], positive, depth=max(1, depth - 1), pool=pooltrees, allow_abs2=allow_abs2, allow_wrap=allow_wrap))
             if euler == "bounded":
                 # |x'| <= |x| + |dt|: trajectories grow at most linearly however many steps are taken
                 a = draw(st.sampled_from([0, 0, 5]))
@@ -81,7 +89,7 @@ def model_specs(
             trees[s] = ["add", ["mul", ["const", a], ["sym", j if draw(st.booleans()) else s]],
                         ["mul", ["sym", dtname], e]]
         else:
-            trees[s] = draw(T.exprs(syms, positive, depth=depth, pool=pooltrees))
+            trees[s] = draw(T.exprs(syms, positive, depth=depth, pool=pooltrees, allow_abs2=allow_abs2, allow_wrap=allow_wrap))
 
     string_form = []
     if allow_string_form and names == "ident" and draw(st.integers(0, 7)) == 0:
@@ -106,11 +114,14 @@ def model_specs(
             ssyms = state + calib
             # SensorModel.__init__ evaluates every sensor at the all-zero state ("pre-flight"), so an accepted
             # sensor must be defined there: only calibration symbols may be used as positive divisors.
-            sensors[key] = {r: draw(T.exprs(ssyms, [p for p in positive if p in calib], depth=sensor_depth,
+            sensors[key] = {r: draw(T.exprs(ssyms, [p for p in positive if p in calib], depth=sensor_depth, allow_abs2=allow_abs2, allow_wrap=False,
                                             pool=[p for p in pooltrees if T.symbols_of(p) <= set(ssyms)
                                                   and T.divisor_symbols(p) <= set(calib)]))
                             for r in rnames}
             sensor_noises[key] = {r: draw(noise_val()) for r in rnames}
+
+    # the project's own tests key a single-reading sensor (and its noise) by a sympy Symbol instead of a string
+    symbol_keyed = [k for k, rs in sensors.items() if len(rs) == 1 and draw(st.integers(0, 5)) == 0]
 
     cfg = {
         "cse": draw(st.booleans()) if cse is None else cse,
@@ -121,6 +132,7 @@ def model_specs(
     if kind == "k":
         cfg["innov"] = draw(st.floats(min_value=0.5, max_value=8.0, allow_nan=False))
     return {
+        "proactive_simplify": allow_string_form and draw(st.integers(0, 4)) == 0,
         "dt": dtname,
         "state": state,
         "control": control,
@@ -135,6 +147,7 @@ def model_specs(
         "sensor_noises": sensor_noises,
         "config": cfg,
         "pool_size": len(pooltrees),
+        "symbol_keyed": symbol_keyed,
     }
 
 
@@ -181,13 +194,18 @@ def ui_model(spec, tab=None):
     tab = tab or symtab(spec)
     c = spec["containers"]
     calibration = _container(c["calib"], [tab[k] for k in spec["calib"]])
-    return ui.Model(
-        dt=tab[spec["dt"]],
-        state=_container(c["state"], [tab[s] for s in spec["state"]]),
-        control=_container(c["control"], [tab[s] for s in spec["control"]]),
-        state_model=state_model_exprs(spec, tab),
-        calibration=calibration,
-    )
+    import contextlib
+    import io
+
+    with contextlib.redirect_stdout(io.StringIO()):  # proactive_simplify prints timings
+        return ui.Model(
+            dt=tab[spec["dt"]],
+            state=_container(c["state"], [tab[s] for s in spec["state"]]),
+            control=_container(c["control"], [tab[s] for s in spec["control"]]),
+            state_model=state_model_exprs(spec, tab),
+            calibration=calibration,
+            proactive_simplify=bool(spec.get("proactive_simplify", False)),
+        )
 
 
 def calibration_map(spec, tab=None):
@@ -200,13 +218,21 @@ def process_noise(spec, tab=None):
     return {tab[c]: spec["process_noise"][c] for c in spec["control"]}
 
 
+def _rkey(spec, key, r):
+    if key in spec.get("symbol_keyed", []):
+        import sympy
+
+        return sympy.Symbol(r)
+    return r
+
+
 def sensor_models(spec, tab=None):
     tab = tab or symtab(spec)
-    return {key: {r: T.to_sympy(t, tab) for r, t in m.items()} for key, m in spec["sensors"].items()}
+    return {key: {_rkey(spec, key, r): T.to_sympy(t, tab) for r, t in m.items()} for key, m in spec["sensors"].items()}
 
 
 def sensor_noises(spec):
-    return {key: dict(m) for key, m in spec["sensor_noises"].items()}
+    return {key: {_rkey(spec, key, r): v for r, v in m.items()} for key, m in spec["sensor_noises"].items()}
 
 
 def py_config(spec, **over):
